@@ -9,7 +9,7 @@ from .common import LEAN, REPO, write_if_changed
 sys.path.insert(0, str(Path(__file__).resolve().parent.parent))
 
 
-ALL = ("scopemap", "builtin", "envconfig", "checkapi", "skeletons", "alias", "registry", "columnprops", "scriptslots", "inferstats")
+ALL = ("scopemap", "builtin", "envconfig", "checkapi", "skeletons", "alias", "registry", "columnprops", "scriptslots", "inferstats", "decorators")
 
 
 def regenerate(which=("scopemap",)) -> dict:
@@ -55,6 +55,9 @@ def regenerate(which=("scopemap",)) -> dict:
     if "inferstats" in which:
         from extract import inferstats
         write_if_changed(gen / "InferStats.lean", inferstats.render(REPO))
+    if "decorators" in which:
+        from extract import decorator_branches
+        write_if_changed(gen / "DecoratorBranches.lean", decorator_branches.render(REPO))
     if "builtin" in which:
         from extract import builtin_checks
         write_if_changed(gen / "BuiltinChecks.lean", builtin_checks.render(REPO))
